@@ -21,6 +21,7 @@ import Gengo.Model.Partial
 import Gengo.Model.Assemble
 import Gengo.Model.Loader
 import Gengo.Model.Register
+import Gengo.Model.Locality
 import Gengo.Drv.Resolve2
 open Gengo
 
@@ -526,15 +527,23 @@ def runRegister (fixed guardRoots : Bool) (toks : List String) : String :=
 def segs (s : String) : Locate.Path := if s == "" || s == "." then [] else (s.splitOn "/").map String.toList
 def runLocate (dir : String) (toks : List String) : String :=
   let ps : List Locate.P := toks.map fun t => match t.splitOn ";" with
-    | [pp, mp, md] => ⟨segs pp, if mp == "-" then none else some (segs mp, segs md)⟩
+    | pp :: mp :: md :: _ => ⟨segs pp, if mp == "-" then none else some (segs mp, segs md)⟩
     | _ => ⟨[], none⟩
+  -- with a fourth field (matched by the patterns: 0|1) the locality decision of `Load` is answered as well
+  let lps : List Locality.P := toks.filterMap fun t => match t.splitOn ";" with
+    | [pp, mp, _, m] => some ⟨segs pp, if mp == "-" then none else some (segs mp), m == "1"⟩
+    | _ => none
+  let showPath (p : Locate.Path) : String := String.intercalate "/" (p.map String.ofList)
+  let localsPart : String :=
+    if lps.isEmpty then "" else
+      " locals " ++ String.intercalate "," ((sortByStr id ((Locality.locals lps).map fun e => (showPath e.1 ++ "=" ++ (if e.2 then "1" else "0")).toList)).map String.ofList)
   let sd := ps.map fun p => match Locate.sourceDir p with
     | none => "-"
     | some d => String.intercalate "/" (d.map String.ofList)
   let loc := match Locate.locate ps (segs dir) with
     | none => "none"
     | some p => String.intercalate "/" (p.pkgPath.map String.ofList)
-  "dirs " ++ String.intercalate "," sd ++ " locate " ++ loc
+  "dirs " ++ String.intercalate "," sd ++ " locate " ++ loc ++ localsPart
 end C13Drv
 
 
